@@ -379,7 +379,9 @@ func suiteCrash(seed uint64, n int, work string, power bool, sparse bool) {
 						specOrKnown("crash at event %d/%d (%s %s off=%d torn=%d power=%v keepLast=%v inflight=%v): recovered state is neither the state before nor after the in-flight transaction: %s", e, len(events), evOp(events, e), evPath(events, e), evOff(events, e), torn, pl == 1, keepLast, inflight, d)
 					}
 					// continue after recovery: more commits (forcing rotations), clean reopen
-					if okk && (images%7 == 0 || torn > 100 || (torn > 0 && images%5 == 0)) {
+					// (crash points inside the first Open are always continued: what it left half-made must be completed
+					// by the next Open, not only tolerated by it)
+					if okk && (images%7 == 0 || torn > 100 || (torn > 0 && images%5 == 0) || e < 8) {
 						cur = rec
 						ok2 := true
 						ncont := 5
